@@ -7,7 +7,7 @@ TMP = [None]
 _sp = {}
 DAY = 86400
 BOUNDS = ('C_NB', 'C_NOOA', 'SCD_NOOA', 'SCD_NB', 'SESS')
-KIND = {'C_NB': 'NB', 'SCD_NB': 'NB', 'C_NOOA': 'NOOA', 'SCD_NOOA': 'NOOA', 'SESS': 'NOOA'}
+KIND = {'C_NB': 'NB', 'SCD_NB': 'NB', 'C_NOOA': 'NOOA', 'SCD_NOOA': 'NOOA', 'SESS': 'NOOA', 'SCD2_NOOA': 'NOOA', 'SCD2_NB': 'NB'}
 BASE_OFF = {'C_NB': -60, 'C_NOOA': 300, 'SCD_NOOA': 400, 'SCD_NB': -50, 'SESS': 500}
 
 
@@ -32,6 +32,15 @@ def shapes(thorough):
     out.append(('wide-profile', {'C_NOOA': w, 'SCD_NOOA': w}))
     out.append(('wide-scd-only', {'SCD_NOOA': w}))
     # inversions (only observable through the allowance)
+    # Conditions carrying only the time attributes (no AudienceRestriction or other child element)
+    for sub in (('C_NOOA',), ('C_NB',), ('C_NB', 'C_NOOA'), ('C_NB', 'C_NOOA', 'SCD_NOOA'), ('C_NOOA', 'SCD_NOOA', 'SESS')):
+        d = {b: BASE_OFF[b] for b in sub}
+        d['_noaud'] = True
+        out.append(('no-audience:' + '+'.join(sub), d))
+    # two bearer confirmations: a second one with its own window (SCD2_*), in both orders
+    out.append(('two-scd:usable+expiring-earlier', {'SCD_NOOA': 400, 'SCD2_NOOA': 200, 'C_NOOA': 600}))
+    out.append(('two-scd:expiring-earlier+usable', {'SCD_NOOA': 400, 'SCD2_NOOA': 200, 'C_NOOA': 600, '_scd2_first': True}))
+    out.append(('two-scd:usable+not-yet', {'SCD_NOOA': 400, 'SCD2_NOOA': 400, 'SCD2_NB': 100, 'C_NOOA': 600}))
     out.append(('inv-conditions', {'C_NB': 10, 'C_NOOA': 0, 'SCD_NOOA': 400}))
     out.append(('inv-scd', {'SCD_NB': 10, 'SCD_NOOA': 0, 'C_NOOA': 400}))
     return out
@@ -46,8 +55,13 @@ Z_LIKE = ('Z', '.000Z', '.999Z')
 def build_doc(shape, style):
     T0 = env.BASE
     conf = [forge.confirmation(T0, nooa=shape.get('SCD_NOOA'), nb=shape.get('SCD_NB'), style=style)]
+    if 'SCD2_NOOA' in shape or 'SCD2_NB' in shape:
+        c2 = forge.confirmation(T0, nooa=shape.get('SCD2_NOOA'), nb=shape.get('SCD2_NB'), style=style)
+        conf = [c2] + conf if shape.get('_scd2_first') else conf + [c2]
     a = dict(confirmations=conf, cond=True, cond_nb=shape.get('C_NB'), cond_nooa=shape.get('C_NOOA'),
              session_nooa=shape.get('SESS'), style=style)
+    if shape.get('_noaud'):
+        a['audiences'] = ()
     return forge.build(T0, resp=dict(style=style), assertions=[a], sign_resp='idpA')
 
 
@@ -56,6 +70,8 @@ def instants(shape, thorough):
     def f(s):
         pts = set()
         for b, off in shape.items():
+            if b.startswith('_'):
+                continue
             edge = off + s if KIND[b] == 'NOOA' else off - s
             for o in (-2, -1, 0, 1, 2):
                 pts.add(edge + o)
@@ -77,7 +93,7 @@ def cells(thorough):
     for si, (name, shape) in enumerate(shapes(thorough)):
         f = instants(shape, thorough)
         for style in spell:
-            if not thorough and style != 'Z' and not (name.startswith('subset:') and name.count('+') in (1, 4) or name.startswith('wide') or name == 'sess-early'):
+            if not thorough and style != 'Z' and not (name.startswith('subset:') and name.count('+') in (1, 4) or name.startswith('wide') or name == 'sess-early' or name.startswith('two-scd')):
                 continue
             for s in slacks:
                 out.append((si, name, style, s, f(s or 0)))
@@ -90,6 +106,8 @@ def judge(shape, style, slack, dt):
     rej = False
     spare = True
     for b, off in shape.items():
+        if b.startswith('_'):
+            continue
         v = off + FRAC[style]
         if KIND[b] == 'NOOA':
             if dt - s > v + 1:
@@ -110,7 +128,7 @@ def judge(shape, style, slack, dt):
         rej = True
     if not (abs(dt) + s + 1 < DAY):
         spare = False
-    profile = style in Z_LIKE and 'SCD_NOOA' in shape and 'SCD_NB' not in shape
+    profile = style in Z_LIKE and 'SCD_NOOA' in shape and 'SCD_NB' not in shape and 'SCD2_NB' not in shape and not shape.get('_noaud')
     acc = profile and spare and not rej
     exp = None
     if 'SESS' in shape:
@@ -178,6 +196,8 @@ def run(ctx):
                 shape = SHAPES[si][1]
                 near = None
                 for b, off in shape.items():
+                    if b.startswith('_'):
+                        continue
                     e = off + (slack or 0) * (1 if KIND[b] == 'NOOA' else -1)
                     if abs(dt - e) <= 3600:
                         near = b
@@ -190,7 +210,7 @@ def run(ctx):
         'level': 'exploration',
         'coverage': {
             'evaluations': n, 'distinct_nontrivial': len(nontriv), 'exhaustive': True,
-            'rule': 'complete grid: %d document shapes (every subset of the five optional bounds; session-earlier-than-conditions; wide bounds isolating IssueInstant; NotBefore>NotOnOrAfter inversions) x timestamp spellings x allowance values x placements of now (-2..+2 s around every edge shifted by the allowance, around +-1 day of IssueInstant, far values); non-trivial = cells where the oracle demands a verdict (reject-required or accept-required, 1 s dead zone around each edge)' % len(SHAPES),
+            'rule': 'complete grid: %d document shapes (every subset of the five optional bounds; Conditions without any child element; two bearer confirmations with different windows in both orders; session-earlier-than-conditions; wide bounds isolating IssueInstant; NotBefore>NotOnOrAfter inversions) x timestamp spellings x allowance values x placements of now (-2..+2 s around every edge shifted by the allowance, around +-1 day of IssueInstant, far values); non-trivial = cells where the oracle demands a verdict (reject-required or accept-required, 1 s dead zone around each edge)' % len(SHAPES),
             'samples': [{'cell': list(cs[i0][:4]), 'instants': cs[i0][4][:6], 'outcomes': [list(o) for o in res[i0][:3]]}],
             'accepted': n_acc, 'accept_required_cells': n_must_acc, 'reject_required_cells': n_must_rej,
             'distinct_outcomes': len(hist), 'outcome_histogram': hist,
